@@ -50,12 +50,29 @@ Theorem c16_renew pref s o x t h dl T :
   closed (runE pref (step s o) h) = Some (ByTimeout x dl, T) -> dl = t /\ t <= T.
 Proof. exact (renew pref s o x t h dl T). Qed.
 
+(* the same against EVERY interleaving of the runtime's events (ticks, firings and callbacks of both directions in any
+   order), from any reachable state in which no callback of direction x is already waiting: if the renewal comes
+   before the old timer has fired, only the new deadline can close the connection for direction x, and not before t *)
+Theorem c16_renew_all s o x t h dl T :
+  renews x t o -> t <> 0 -> closed s = None -> no_pending x s -> Inv s ->
+  Forall (fun o' => quiet x o' = true) h ->
+  closed (run (step s o) h) = Some (ByTimeout x dl, T) -> dl = t /\ t <= T.
+Proof. exact (renew_all s o x t h dl T). Qed.
+
+(* every state reachable from the initial one satisfies the invariant used above *)
+Theorem c16_reachable_inv t0 h : Inv (run (init t0) h).
+Proof. exact (run_Inv (init t0) h (init_Inv t0)). Qed.
+
 (* clearing (zero time): whatever happens afterwards (any primitive history that does not arm x again), the
    connection is never closed by the timeout of direction x *)
 Theorem c16_clear s o x h dl T :
   clears x o -> closed s = None -> no_pending x s -> Forall (fun o' => arms x o' = false) h ->
   closed (run (step s o) h) <> Some (ByTimeout x dl, T).
 Proof. exact (clear s o x h dl T). Qed.
+
+(* ... and the runtime's events of a disarmed direction change nothing at all *)
+Theorem c16_clear_inert x s : timer x s = None -> no_pending x s -> step s (Fire x) = s /\ step s (Run x) = s.
+Proof. exact (disarmed_inert x s). Qed.
 
 (* a Write that leaves no backlog drops the write timer, and no write timeout follows *)
 Theorem c16_autoclear s f h dl T :
@@ -109,7 +126,10 @@ Print Assumptions c16_never_early.
 Print Assumptions c16_fires.
 Print Assumptions c16_fires_exact.
 Print Assumptions c16_renew.
+Print Assumptions c16_renew_all.
+Print Assumptions c16_reachable_inv.
 Print Assumptions c16_clear.
+Print Assumptions c16_clear_inert.
 Print Assumptions c16_autoclear.
 Print Assumptions c16_backlog_keeps.
 Print Assumptions c16_no_stale.
